@@ -15,3 +15,11 @@ GROUPS += [
           bound="nstruct, nrows in 1..2 (loops completely unwound), arbitrary column bijection, arbitrary status codes and row senses; allocation failure not explored",
           must_fail=["reach_end", "reach_loaded"], functions=["ILLbasis_load", "ILLbasis_build_basisinfo"], props=["C12", "C17"]),
 ]
+
+EXACT = ["QSV_GMP_EXACT", "QSV_NARROW", "QSV_INF=1024"]
+GROUPS += [
+    Group("fct/compute_" + fn, "fct_compute.c", tus=["fct_mpq.c"], model=MODEL, defines=["FN_" + fn] + EXACT, dfcc=False, unwind=8, kind="bounded", timeout=1200,
+          bound="2 rows, 2 non-basic positions, 4 columns of at most 2 entries each, arbitrary basis header / column types / statuses, integer data of magnitude <= 3; exact pair arithmetic (GMP model EXACT+NARROW); loops completely unwound",
+          must_fail=["reach_end", cov], functions=["ILLfct_compute_" + fn], props=props + ["C17"])
+    for fn, cov, props in [("dz", "reach_fixed_column_nonzero_dz", ["C12"]), ("pobj", "reach_nonzero_value", ["C01", "C05"]), ("dobj", "reach_nonzero_value", ["C01", "C05"])]
+]
